@@ -303,6 +303,38 @@ def _visibly_bound(src, name):
     return True
 
 
+def _binding_shape(src, name):
+    """Where the program binds `name` with an assignment expression: the chain of enclosing comprehension kinds
+    (innermost first) and the kind of the owning scope - so that different scoping defects get different keys."""
+    import ast
+    try:
+        tree = ast.parse(src if isinstance(src, str) else src.decode('utf-8', 'replace'))
+    except Exception:
+        return 'the name is bound in a visible scope'
+    shapes = set()
+
+    def walk(node, stack):
+        if isinstance(node, ast.NamedExpr) and isinstance(node.target, ast.Name) and node.target.id == name:
+            chain = []
+            owner = 'module'
+            for n in reversed(stack):
+                if isinstance(n, (ast.ListComp, ast.SetComp, ast.DictComp)):
+                    chain.append('comp')
+                elif isinstance(n, ast.GeneratorExp):
+                    chain.append('genexp')
+                elif isinstance(n, (ast.FunctionDef, ast.AsyncFunctionDef, ast.Lambda)):
+                    owner = 'function'
+                    break
+                elif isinstance(n, ast.ClassDef):
+                    owner = 'class'
+                    break
+            shapes.add('walrus target in %s, %s scope' % ('<'.join(chain) or 'plain expression', owner))
+        for ch in ast.iter_child_nodes(node):
+            walk(ch, stack + [node])
+    walk(tree, [])
+    return '; '.join(sorted(shapes)) if shapes else 'the name is bound in a visible scope'
+
+
 def _classify_valid(r, bydesign=False, src=None):
     """Result of a CPython-valid program -> (kind, key) or None when acceptable."""
     if r['status'] == 'ok':
@@ -313,7 +345,7 @@ def _classify_valid(r, bydesign=False, src=None):
             # the allowlist covers names defined NOWHERE: a name CPython's symbol table binds in a visible scope is not one
             for _, _, m in r['msgs']:
                 if ALLOW[0].search(m) and _visibly_bound(src, m.split(': ', 1)[1].strip()):
-                    return ('reject', 'undeclared name not builtin: _ (the name is bound in a visible scope)')
+                    return ('reject', 'undeclared name not builtin: _ (%s)' % _binding_shape(src, m.split(': ', 1)[1].strip()))
         if not bad:
             return ('allow', None)
         if bydesign and all(any(b.search(m) for b in BYDESIGN) for m in bad):
